@@ -452,6 +452,7 @@ func c10Run(c *verifeng.Chooser, depth, nreq int) {
 	burst.Off()
 	// ---- wind down: let the scan run to completion, then stop; every
 	// caller must have returned.
+	stalls := 0
 	for i := 0; i < 60; i++ {
 		verifbubble.Wait()
 		if judge() {
@@ -460,6 +461,7 @@ func c10Run(c *verifeng.Chooser, depth, nreq int) {
 		if blockGate != nil {
 			close(blockGate)
 			blockGate = nil
+			stalls = 0
 			continue
 		}
 		slowNextBlock = false
@@ -467,6 +469,7 @@ func c10Run(c *verifeng.Chooser, depth, nreq int) {
 			g := gate
 			gate = nil
 			g.release <- nil
+			stalls = 0
 			continue
 		}
 		pending := false
@@ -482,11 +485,33 @@ func c10Run(c *verifeng.Chooser, depth, nreq int) {
 		}
 		// a request whose start height is above the tip waits for the
 		// chain: let the chain grow and the scanner's retry timer fire
-		future := false
+		future, present := false, false
 		for _, l := range lives {
 			if !l.tk.Done() && int(l.r.birth) > tip {
 				future = true
 			}
+			if !l.tk.Done() && int(l.r.birth) <= tip {
+				present = true
+			}
+		}
+		if future && present && stalls < 4 {
+			// a request at or below the tip does not depend on the
+			// chain growing: it has to be answered while the request
+			// above the tip waits (the scanner retries every few
+			// seconds; four rounds with nothing outstanding)
+			stalls++
+			time.Sleep(3 * time.Second)
+			continue
+		}
+		if future && present {
+			var waiting []string
+			for _, l := range lives {
+				if !l.tk.Done() && int(l.r.birth) <= tip {
+					waiting = append(waiting, l.r.name)
+				}
+			}
+			c.Fail("C10", "C10:caller-left-waiting", "the scan has nothing more to do (no callback outstanding) and the chain (tip %d) has not grown for 12 s, but these callers whose start height is not above the tip are still waiting behind a request that starts above it: %v", tip, waiting)
+			return
 		}
 		if future && tip < len(full.blocks)-1 {
 			tip++
@@ -591,6 +616,15 @@ func TestVFXC10(t *testing.T) {
 	e.MaxDev = 1
 	e.Run(c10Body(t, depth-2, nreq))
 	vfxInBurst = false
+	if err := verifeng.AppendResult(&e.Res); err != nil {
+		t.Fatal(err)
+	}
+	// three live requests (one running, one deferred to the next batch, one
+	// above the tip), shallower
+	e = verifeng.FromEnv("C10-utxoscanner", fmt.Sprintf("depth=%d requests=%d pool=%d", depth-2, nreq+1, len(c10pool)))
+	e.ShardDepth = 2
+	e.MaxViol = 12
+	e.Run(c10Body(t, depth-2, nreq+1))
 	if err := verifeng.AppendResult(&e.Res); err != nil {
 		t.Fatal(err)
 	}
